@@ -9,9 +9,14 @@ correspondence:  harness/h_p21.cc (read A; append B; [append C]; dump; write) vs
 oracle:          the statement evaluated on the file the implementation writes after Read + Append(s)
 """
 import concurrent.futures as cf
-import json, os, subprocess, time
+import json, os, re, subprocess, time
 from vlib import build as B, p21_gen as G
 from checks.c15 import build_schema, Harness, kv, parse_dump, check_schema_table, HARNESS
+
+
+def _SchemaFromExpress(text):
+    from checks.c16 import _SchemaFromExpress as S
+    return S(text)
 
 HERE = os.path.dirname(os.path.abspath(__file__))
 VERIF = os.path.dirname(HERE)
@@ -120,8 +125,65 @@ def align_first_ref(prev_pop, pop):
     return [G.Inst(f(i.id), [(nm, [G.map_refs(v, f) for v in vs]) for nm, vs in i.parts]) for i in pop]
 
 
+# ------------------------------------------------------------------ redeclared attributes / the population in memory
+def unhide_redeclared(schema, written, want):
+    """the exchange writer prints `*` at a redeclared position (the value lives in the redefining attribute); such a
+    position tells nothing in the written file - its value is checked in memory (`vals`) instead"""
+    if len(written.parts) != len(want.parts):
+        return written
+    out = written.copy()
+    for pi in range(len(out.parts)):
+        if out.is_complex:
+            continue
+        attrs = G.part_attrs(schema, want, pi)
+        for ai, a in enumerate(attrs):
+            if a.redef_name and ai < len(out.parts[pi][1]) and out.parts[pi][1][ai] == ("derived",) and ai < len(want.parts[pi][1]):
+                out.parts[pi][1][ai] = want.parts[pi][1][ai]
+    return out
+
+
+def refs_in_text(t):
+    t = re.sub(r"'(?:[^']|'')*'", "", t)
+    return [int(x) for x in re.findall(r"#(\d+)", t)]
+
+
+def memory_check(h, schema, expected):
+    """every reference the SESSION holds (asStr of every attribute of every part, redeclared ones through their redefining
+    attribute) against the expected (shifted) population; returns None or what is wrong"""
+    for idx, want in enumerate(expected):
+        r = h.cmd(f"vals {idx}")
+        if not r.startswith("V"):
+            return f"instance {idx}: no values ({r})"
+        parts = {}
+        for g in r[1:].split("|"):
+            ws = g.split()
+            if not ws:
+                continue
+            ent = []
+            for w in ws[1:]:
+                nm, red, hx_ = w.rsplit("/", 2)
+                ent.append((nm, red == "1", "" if hx_ == "-" else bytes.fromhex(hx_).decode("latin-1")))
+            parts[ws[0]] = ent
+        for pi, (pname, vals) in enumerate(want.parts):
+            ent = parts.get(pname)
+            if ent is None:
+                return f"instance #{want.id}: part {pname} not in the session"
+            pos = [e for e in ent if not e[1]]
+            byname = {e[0]: e for e in ent}
+            for ai, a in enumerate(G.part_attrs(schema, want, pi)):
+                exp = G.refs_of(vals[ai])
+                src = byname.get(a.redef_name) if a.redef_name else (pos[ai] if ai < len(pos) else None)
+                if src is None:
+                    return f"instance #{want.id}: attribute {a.redef_name or a.name} not in the session"
+                got = refs_in_text(src[2])
+                if got != exp:
+                    return (f"instance #{want.id} ({pname}), attribute {src[0]}{' (redeclared)' if a.redef_name else ''}: the session holds "
+                            f"reference(s) {got}, expected {exp}" + (" - they point at earlier instances" if any(g not in exp for g in got) else ""))
+    return None
+
+
 # ------------------------------------------------------------------ the statement on the implementation's output
-def oracle(files, reads, final_dump, written):
+def oracle(files, reads, final_dump, written, schema=None):
     """files: [(scheme, pop)], reads: the `R ...` dicts of read/append, final_dump: [(id, type, state)], written: [Inst]"""
     total = sum(len(p) for _, p in files)
     if len(final_dump) != total or len(written) != total:
@@ -131,6 +193,8 @@ def oracle(files, reads, final_dump, written):
         seg = written[pos:pos + len(pop)]
         if fi == 0:
             for a, b in zip(pop, seg):
+                if schema is not None:
+                    b = unhide_redeclared(schema, b, a)
                 if not G.inst_equal(a, b):
                     return f"instance #{a.id} of the first file was changed by reading/appending: wrote {G.render_inst(b)}"
         else:
@@ -143,6 +207,8 @@ def oracle(files, reads, final_dump, written):
                 return f"appended file {fi}: offset {k} is not larger than every earlier id (max {max(earlier_ids)})"
             for a, b in zip(pop, seg):
                 want = G.shift_inst(a, k)
+                if schema is not None:
+                    b = unhide_redeclared(schema, b, want)
                 if not G.inst_equal(want, b):
                     bad_refs = [r for r in G.inst_refs(b) if r in earlier_ids]
                     extra = f"; reference(s) {bad_refs} point at earlier instances" if bad_refs else ""
@@ -177,7 +243,16 @@ def run_case(ctx, h, m, schema, files, strict, workdir, tag, layout_rng=None):
         return ("property", f"written file cannot be parsed ({ex})")
     final = parse_dump(dumps[-1][0])
     # --- oracle on the implementation
-    e = oracle(files, reads_h, final, written)
+    e = oracle(files, reads_h, final, written, schema)
+    if e:
+        return ("property", e)
+    # the same for the population as the session holds it (what an application sees; the only place where a
+    # redeclared attribute's value shows)
+    expected, seen = [], []
+    for fi, (_, pop) in enumerate(files):
+        k = 0 if fi == 0 else written[len(expected)].id - pop[0].id
+        expected += [G.shift_inst(i, k) for i in pop]
+    e = memory_check(h, schema, expected)
     if e:
         return ("property", e)
     for r in reads_h:
@@ -195,6 +270,7 @@ def run_case(ctx, h, m, schema, files, strict, workdir, tag, layout_rng=None):
         if dh != dm:
             return ("correspondence", f"after file {fi}: dump impl {dh[:300]} model {dm[:300]}")
     mi = decode_insts(m.cmd("insts"))
+    written = [unhide_redeclared(schema, w_, x_) for w_, x_ in zip(written, mi)] if len(mi) == len(written) else written
     if len(mi) != len(written) or not all(G.inst_equal(x, y) for x, y in zip(mi, written)):
         first = next((j for j, (x, y) in enumerate(zip(mi, written)) if not G.inst_equal(x, y)), None)
         return ("correspondence", f"written instance {first}: impl {G.render_inst(written[first]) if first is not None else len(written)} "
@@ -263,10 +339,10 @@ def run(ctx):
     for si in range(n_schemas):
         if si == 1:     # select-heavy: typed select values carrying entity references, nested and renamed selects
             schemas.append(G.gen_schema(ctx.rng, f"ap{si}", n_entities=5, kinds=sel_kinds, cover_all_kinds=True,
-                                        p_optional=0.3, with_complex=True))
+                                        p_optional=0.3, with_complex=True, with_redecl=True))
         else:
             schemas.append(G.gen_schema(ctx.rng, f"ap{si}", n_entities=ctx.rng.randint(3, 6), cover_all_kinds=(si == 0),
-                                        p_optional=0.4, with_complex=True, extra=(si % 2 == 0)))
+                                        p_optional=0.4, with_complex=True, extra=(si % 2 == 0), with_redecl=(si % 2 == 0)))
     t0 = time.time()
     with cf.ThreadPoolExecutor(max_workers=8) as ex:
         built = list(ex.map(lambda s: build_schema(b, s, os.path.join(ctx.work, s.name), False), schemas))
@@ -362,7 +438,14 @@ def replay(ctx, path):
         written = [i for _, i in G.parse_p21(open(outp).read())[2]]
         print("reads:", reads)
         print("written:", [G.render_inst(i) for i in written])
-        e = oracle(files, reads, final, written)
+        schema = _SchemaFromExpress(r["schema_express"])
+        e = oracle(files, reads, final, written, schema)
+        if not e:
+            expected = []
+            for fi, (_, pop) in enumerate(files):
+                k = 0 if fi == 0 else written[len(expected)].id - pop[0].id
+                expected += [G.shift_inst(i, k) for i in pop]
+            e = memory_check(h, schema, expected)
         if e:
             ctx.violation(d.get("key", "replay"), e, r)
     finally:
